@@ -207,4 +207,46 @@ theorem triple_bounds (T : Topo) (G : TopoFacts T) (tr : Triple) (F : TripleFact
   rw [aggC_re T tr F G r _ hx, aggC_im T tr F G _ hx, SitesAlg.lineC_sq r _ _ hr] at bc
   exact ⟨ba, bb, bc⟩
 
+/-- `aggSq` (what the driver reports as |aggregate|²) in terms of the dense row -/
+theorem aggSq_eq (T : Topo) (r : K) (caps x : List K) (i : Nat) (hi : i < T.rows.length) :
+    aggSq T r caps i x =
+      aggRe (denseRow (nStations T) (rowOf T i)) x (T.angles.map (cosK r)) *
+        aggRe (denseRow (nStations T) (rowOf T i)) x (T.angles.map (cosK r)) +
+      aggIm (denseRow (nStations T) (rowOf T i)) x (T.angles.map sinK) *
+        aggIm (denseRow (nStations T) (rowOf T i)) x (T.angles.map sinK) := by
+  have e : (netOf T r caps).M.getD i [] = denseRow (nStations T) (rowOf T i) := by
+    show (List.map (denseRow (K := K) (nStations T)) T.rows).getD i [] = _
+    rw [getD_of_lt _ _ _ (by simpa using hi), List.getElem_map]
+    unfold rowOf; rw [getD_of_lt _ _ _ hi]
+  unfold aggSq; simp only []; rw [e]; rfl
+
+/-- **feasibility is exactly the conjunction over rows and periods** of `|aggregate|² ≤ bound²` -/
+theorem feasible_iff_rows (T : Topo) (G : TopoFacts T) (r vt rt : K) (caps : List K) (S : List (List K)) :
+    feasible T r vt rt caps S = true ↔
+      ∀ t, t < periods S → ∀ i, i < T.rows.length →
+        0 ≤ boundOf T r vt rt caps i ∧
+        aggSq T r caps i (col S t) ≤ boundOf T r vt rt caps i * boundOf T r vt rt caps i := by
+  constructor
+  · intro h t ht i hi
+    rw [aggSq_eq T r caps _ i hi]
+    exact row_bound T G r vt rt caps S h t ht i hi
+  · intro h
+    show netFeasible (List.map (denseRow (K := K) (nStations T)) T.rows) (List.map (limK r caps) T.lims)
+      (List.map (cosK r) T.angles) (List.map sinK T.angles) vt rt S = true
+    rw [netFeasible_iff _ _ _ _ _ _ _ (by simp [G.limLen, G.rowsPos]) (by simp [G.limLen])]
+    intro t ht i hi hi'
+    have hi1 : i < T.rows.length := by simpa using hi
+    have hi2 : i < T.lims.length := by simpa using hi'
+    have e1 : (List.map (denseRow (K := K) (nStations T)) T.rows)[i]'hi
+        = denseRow (nStations T) (rowOf T i) := by
+      rw [List.getElem_map]; unfold rowOf; rw [getD_of_lt _ _ _ hi1]
+    have e2 : (List.map (limK r caps) T.lims)[i]'hi' = limK r caps (limOf T i) := by
+      rw [List.getElem_map]; unfold limOf; rw [getD_of_lt _ _ _ hi2]
+    rw [e1, e2]
+    unfold rowOk
+    rw [magLe_iff]
+    have := h t ht i hi1
+    rw [aggSq_eq T r caps _ i hi1] at this
+    exact this
+
 end Acn.SitesMain
